@@ -122,7 +122,117 @@ def work_walk(item):
     return viol, counts, [], None, [], None
 
 
+# ---------------------------------------------------------------------------------------------
+# definition-derived corpus: expressions that consult the named sets of each definitions.yaml, used to walk between every ordered pair of
+# languages and of braille codes in one session (a set that survives a switch, or is not rebuilt, shows only on such inputs)
+
+def def_members(path, per_name=3):
+    """name -> a few members (first / middle / last) of every set, map and vector of one definitions.yaml"""
+    doc = mcx.yaml2json(path)
+    out = {}
+    for entry in (doc[0] if doc else []):
+        if not isinstance(entry, list):
+            continue
+        for kv in entry:
+            name, v = kv["k"], kv["v"]
+            if name == "include" or not isinstance(v, list) or not v:
+                continue
+            ms = [(x["k"] if isinstance(x, dict) else x) for x in v]
+            ms = [m for m in ms if isinstance(m, str) and m and not m.startswith("//") and len(m) <= 10 and " " not in m]
+            if not ms:
+                continue
+            pick = [ms[0], ms[len(ms) // 2], ms[-1]][:per_name]
+            out[name] = list(dict.fromkeys(pick))
+    return out
+
+
+def def_terms(path):
+    out = []
+    for name, ms in def_members(path).items():
+        for m in ms:
+            if name.startswith("Numbers"):
+                continue
+            if m[0].isalnum():
+                out.append((f"def:{name}:{m}:apply", terms.row(terms.mi(m), terms.mi("x"))))
+                out.append((f"def:{name}:{m}:sub", terms.row(terms.el("msub", terms.mi(m), terms.mn("2")), terms.mi("x"))))
+                out.append((f"def:{name}:{m}:unit", terms.row(terms.mn("3"), terms.T("mi", text=m, mathvariant="normal"))))
+                if m.isalpha() and 2 <= len(m) <= 4:
+                    out.append((f"def:{name}:{m}:letters", terms.row(*[terms.mi(ch) for ch in m])))
+            else:
+                out.append((f"def:{name}:{m}:infix", terms.row(terms.mi("a"), terms.mo(m), terms.mi("b"))))
+                out.append((f"def:{name}:{m}:prefix", terms.row(terms.mo(m), terms.mi("A"), terms.mi("B"))))
+                out.append((f"def:{name}:{m}:over", terms.el("mover", terms.mi("x"), terms.mo(m))))
+                out.append((f"def:{name}:{m}:under", terms.el("munder", terms.mi("x"), terms.mo(m))))
+    # the number vectors are consulted through ordinals and fractions
+    for k in ("3", "12", "25", "100", "1000"):
+        out.append((f"def:Numbers:{k}:root", terms.el("mroot", terms.mi("x"), terms.mn(k))))
+        out.append((f"def:Numbers:{k}:frac", terms.el("mfrac", terms.mn("7"), terms.mn(k))))
+        out.append((f"def:Numbers:{k}:power", terms.el("msup", terms.mi("x"), terms.mn(k))))
+    return out
+
+
+DEF_OPS = lambda t: [["mathml", terms.doc(t)], ["speech"], ["braille", ""]]
+
+
+def def_domains():
+    """domain -> (preferences selecting it, its own definition-derived terms)"""
+    shared = def_terms(os.path.join(mcx.RULES, "definitions.yaml"))
+    doms = {}
+    for lang in lattice.languages():
+        if "-" in lang:
+            continue
+        pth = os.path.join(mcx.RULES, "Languages", lang, "definitions.yaml")
+        st = lattice.styles(lang)[0]
+        doms["L:" + lang] = ([["pref", "Language", lang], ["pref", "SpeechStyle", st], ["pref", "BrailleCode", "Nemeth"]], def_terms(pth))
+    for code in lattice.braille_codes():
+        pth = os.path.join(mcx.RULES, "Braille", code, "definitions.yaml")
+        if os.path.exists(pth):
+            doms["B:" + code] = ([["pref", "Language", "en"], ["pref", "SpeechStyle", "ClearSpeak"], ["pref", "BrailleCode", code]], def_terms(pth))
+    return shared, doms
+
+
+def _dedupe(cases):
+    seen, out = set(), []
+    for label, t in cases:
+        d = terms.doc(t)
+        if d not in seen:
+            seen.add(d)
+            out.append((label, t))
+    return out
+
+
+def work_defpair(item):
+    """one session: domain A over its own terms, switch to B, B over A's + B's + the shared terms; compared with B in a fresh session"""
+    a, b_, shared, doms = item
+    mc = mcx.worker_mc()
+    setup = [["rules_dir", mcx.RULES], ["pref", "TTS", "none"], ["pref", "Verbosity", "Medium"]]
+    pa, ta = doms[a]
+    pb, tb = doms[b_]
+    cases = _dedupe(ta + tb + shared)
+    warm = _dedupe(ta + shared[:40])
+    walk = pa + [op for _, t in warm for op in DEF_OPS(t)] + pb + [op for _, t in cases for op in DEF_OPS(t)]
+    fresh = pb + [op for _, t in cases for op in DEF_OPS(t)]
+    _, res = mc.run_cases(setup, [walk, fresh], fresh=True, keep_going=True)
+    off = len(pa) + 3 * len(warm) + len(pb)
+    w, f = res[0][off:], res[1][len(pb):]
+    viol, counts = [], {"evaluations": 0, "defpair_comparisons": 0}
+    for k, (label, t) in enumerate(cases):
+        counts["evaluations"] += 1
+        x, y = [norm_ids(v[:2]) for v in w[3 * k:3 * k + 3]], [norm_ids(v[:2]) for v in f[3 * k:3 * k + 3]]
+        if len(x) < 3 or len(y) < 3 or any(v[0] in ("p", "x", "abort", "timeout") for v in x + y):
+            continue
+        counts["defpair_comparisons"] += 1
+        for nm, p, q in zip(("set_mathml", "speech", "braille"), x, y):
+            if p != q:
+                viol.append((f"C15|walk-differs|{nm}|{b_}|after:{a.split(':')[0]}", f"[{b_} after {a}] {label}: {nm} is {short(p, 110)} but {short(q, 110)} when {b_} is selected in a fresh session",
+                             {"kind": "defpair", "a": a, "b": b_, "label": label, "doc": terms.doc(t)}))
+                break
+    return viol, counts, [], None, [], None
+
+
 def _dispatch(job):
+    if job[0] == "D":
+        return work_defpair(job[1:])
     return work_walk(job[1:]) if job[0] == "W" else work(job[1:])
 
 
@@ -145,6 +255,14 @@ def confirm(replay, verbose=False):
     old = mcx._worker_mc
     mcx._worker_mc = mc
     try:
+        if replay["kind"] == "defpair":
+            shared, doms = def_domains()
+            v = work_defpair((replay["a"], replay["b"], shared, doms))[0]
+            v = [x for x in v if x[2]["label"] == replay["label"]]
+            if verbose:
+                for k, w, _ in v:
+                    print(" ", k, "—", w)
+            return {k for k, _, _ in v}
         if replay["kind"] == "fallback":
             cases = [(replay["label"], terms.parse_xml(replay["doc"]).kids[0])]
             a = work((replay["fb"], replay["style"], "Medium", "Nemeth", cases, "fallback"))[3]
@@ -247,6 +365,13 @@ def main(tier):
         mcx._worker_mc.close()
         mcx._worker_mc = None
     wjobs = [("W", order, small, fresh), ("W", order[::-1], small, fresh), ("W", order[1::2] + order[::2], small, fresh)]
+    shared, doms = def_domains()
+    run.count("definition_domains", len(doms))
+    run.count("definition_terms", len(shared) + sum(len(v[1]) for v in doms.values()))
+    for a in doms:
+        for b_ in doms:
+            if a != b_ and (a[0] == b_[0] or tier == "thorough"):      # quick: language x language and code x code; thorough: mixed pairs too
+                wjobs.append(("D", a, b_, shared, doms))
     for viol, counts, _, _, _, _ in mcx.pmap(_dispatch, wjobs):
         run.merge_violations(viol)
         run.merge_counts(counts)
@@ -259,7 +384,9 @@ def main(tier):
         rule="every (language|language-region) x style x verbosity present under Rules/Languages (45) with the 8 braille codes rotated through, every code under "
              "English as well, 7 fallback tags x 2 styles; each in a fresh session over the corpus (spine terms of G, trigger terms, 7 characters defined only in "
              "unicode-full.yaml) with speech, overview, braille and a 5-command navigation walk; then three single sessions that walk through all Medium "
-             "configurations (forwards, backwards, interleaved) and must reproduce the fresh-session results. distinct_nontrivial = distinct (configuration, getter, result) triples",
+             "configurations (forwards, backwards, interleaved) and must reproduce the fresh-session results; and for every ordered pair of languages and of braille codes "
+             "(thorough: mixed pairs too) one session A -> B over a corpus DERIVED FROM the definitions.yaml files (three members of every named set/map in 4 token contexts, "
+             "ordinal/fraction numbers), compared with B in a fresh session. distinct_nontrivial = distinct (configuration, getter, result) triples",
         coverage_extra={"rule_coverage": cov, "rule_files_never_exercised": never},
         assumptions=["the directory Languages/zz is a test fixture that build.rs does not ship",
                      "WhereAmI at the root and Exit legitimately return an error and are not part of the walk"],
